@@ -114,9 +114,56 @@ impl Runner {
         }));
     }
 
+    /// State-aware input helpers (inputs only, no expectations): an op that names its amount relative to
+    /// the current state is turned into an ordinary transaction.
+    ///   flatten    : the trader opens the opposite side with exactly the current value of the position at 1x
+    ///                (the engine closes the position through the reversal path and keeps a zero-size record)
+    ///   oracle_rel : the oracle price is set to the vAMM's TWAP plus an offset
+    pub fn resolve(&mut self, op: &Value) -> Option<Value> {
+        let k = op["k"].as_str().unwrap_or("tx");
+        match k {
+            "flatten" => {
+                let v = op["v"].as_str().unwrap_or("vamm1").to_string();
+                let t = op["s"].as_str().unwrap_or("tr1").to_string();
+                let q = self.w.build_query("engine", "unrealized_pnl", &json!({"vamm": v, "trader": t, "opt": "spot_price"})).ok()?;
+                let res = self.w.query_raw("engine", &q).ok()?;
+                let res = self.w.rec.borrow().norm(&res);
+                let n = crate::world::num(&res["position_notional"]) + op["delta"].as_i64().unwrap_or(0);
+                let q2 = self.w.build_query("engine", "position", &json!({"vamm": v, "trader": t})).ok()?;
+                let p = self.w.query_raw("engine", &q2).ok()?;
+                let p = self.w.rec.borrow().norm(&p);
+                let size = crate::world::num(&p["size"]);
+                if size == 0 || n <= 0 {
+                    return None;
+                }
+                let side = if size > 0 { "sell" } else { "buy" };
+                Some(json!({"k": "tx", "c": "engine", "m": "open_position", "s": t,
+                    "a": {"vamm": v, "side": side, "margin": n, "leverage": 100, "limit": 0},
+                    "funds": op["funds"].as_i64().unwrap_or(0)}))
+            }
+            "oracle_rel" => {
+                let v = op["v"].as_str().unwrap_or("vamm1").to_string();
+                let interval = op["interval"].as_i64().unwrap_or(3600);
+                let q = self.w.build_query(&v, "twap_price", &json!({"interval": interval})).ok()?;
+                let res = self.w.query_raw(&v, &q).ok()?;
+                let price = (crate::world::num(&res) + op["off"].as_i64().unwrap_or(0)).max(1);
+                let now = self.w.app.block_info().time.seconds();
+                let key = self.w.base_asset(&v);
+                Some(json!({"k": "tx", "c": "feed", "m": "append_price", "s": "owner", "a": {"key": key, "price": price, "t": now}}))
+            }
+            _ => Some(op.clone()),
+        }
+    }
+
     /// execute one op; returns (ok, fault_fired)
     pub fn op(&mut self, op: &Value) -> (bool, bool) {
         let k = op["k"].as_str().unwrap_or("tx");
+        if k == "flatten" || k == "oracle_rel" {
+            return match self.resolve(op) {
+                Some(o) => self.op(&o),
+                None => (false, false),
+            };
+        }
         match k {
             "block" => {
                 self.ops.push(op.clone());
@@ -332,6 +379,7 @@ fn main() {
                         if k == "sweep" {
                             continue;
                         }
+                        let op = &match cw.resolve(op) { Some(o) => o, None => continue };
                         let mut o_cw = op.clone();
                         o_cw["funds"] = json!(0);
                         o_cw["fault"] = json!(0);
